@@ -11,8 +11,8 @@
 //! min_offset / lost in the chunk merge / inside a returned chunk but skipped by the reader / rejected by the
 //! format-level intersects filter — the class is part of the signature.
 
-mod layouts;
 mod genfiles;
+mod layouts;
 
 use std::{
     collections::{HashMap, HashSet},
@@ -28,7 +28,11 @@ use noodles_csi::{
     self as csi, BinningIndex,
     binning_index::{
         Index, Indexer,
-        index::reference_sequence::{self, bin::Chunk, index::{BinnedIndex, LinearIndex}},
+        index::reference_sequence::{
+            self,
+            bin::Chunk,
+            index::{BinnedIndex, LinearIndex},
+        },
     },
 };
 use noodles_sam::{self as sam, alignment::Record as _};
@@ -520,7 +524,11 @@ where
             let rel = if I::NAME == "binned" {
                 match hb {
                     Some((lvl, b0, b1)) if b0 <= reg.s.unwrap_or(1) - 1 && reg.s.unwrap_or(1) - 1 < b1 => {
-                        if lvl == d { ":in-leaf-bin-of-region-start" } else { ":in-ancestor-bin" }
+                        if lvl == d {
+                            ":in-leaf-bin-of-region-start"
+                        } else {
+                            ":in-ancestor-bin"
+                        }
                     }
                     _ => ":in-later-bin",
                 }
@@ -555,7 +563,10 @@ where
         }
         return (
             "lost-in-chunk-merge".into(),
-            format!("the record's chunk {vs}..{ve} is in returned bin {holder}, ends beyond min_offset {mo}, but the merged chunk list {:?} does not cover it", chunks.iter().map(|c| (u64::from(c.start()), u64::from(c.end()))).collect::<Vec<_>>()),
+            format!(
+                "the record's chunk {vs}..{ve} is in returned bin {holder}, ends beyond min_offset {mo}, but the merged chunk list {:?} does not cover it",
+                chunks.iter().map(|c| (u64::from(c.start()), u64::from(c.end()))).collect::<Vec<_>>()
+            ),
         );
     }
     match guard::catch(|| b.raw(chunks.clone())) {
@@ -565,7 +576,11 @@ where
             } else {
                 (
                     "skipped-by-reader-inside-returned-chunk".into(),
-                    format!("the record's chunk {vs}..{ve} lies inside the returned chunks {:?} but reading them yields only {} records without it", chunks.iter().map(|c| (u64::from(c.start()), u64::from(c.end()))).collect::<Vec<_>>(), names.len()),
+                    format!(
+                        "the record's chunk {vs}..{ve} lies inside the returned chunks {:?} but reading them yields only {} records without it",
+                        chunks.iter().map(|c| (u64::from(c.start()), u64::from(c.end()))).collect::<Vec<_>>(),
+                        names.len()
+                    ),
                 )
             }
         }
@@ -683,11 +698,7 @@ where
         if let Some(&x) = got_idx.iter().find(|i| !must.contains(i) && !optional.contains(i)) {
             let it = &items[x];
             let class = if it.rid != Some(reg.rid) { "other-reference" } else { "outside-region" };
-            report(
-                o,
-                format!("query:{}+{}:extra:{class}", B::FMT, lab.ix),
-                format!("{what}: yields {} (reference {:?}, span {:?}), which the scan filter does not keep", it.name, it.rid, it.span),
-            );
+            report(o, format!("query:{}+{}:extra:{class}", B::FMT, lab.ix), format!("{what}: yields {} (reference {:?}, span {:?}), which the scan filter does not keep", it.name, it.rid, it.span));
             continue;
         }
         // omissions
@@ -752,7 +763,12 @@ fn check_unmapped<B: Backend, X: BinningIndex>(b: &B, items: &[Item], ix: &X, ix
     if let Some(&m) = want.iter().find(|i| !gset.contains(i)) {
         o.violation(
             format!("query-unmapped:{ixname}:missing-unplaced-unmapped-record"),
-            format!("{what}: {} unplaced unmapped records were written, {} of them are yielded; first missing {} (file #{m})", want.len(), want.iter().filter(|i| gset.contains(i)).count(), items[m].name),
+            format!(
+                "{what}: {} unplaced unmapped records were written, {} of them are yielded; first missing {} (file #{m})",
+                want.len(),
+                want.iter().filter(|i| gset.contains(i)).count(),
+                items[m].name
+            ),
         );
         return true;
     }
@@ -785,7 +801,7 @@ fn gen_cases(ctx: &Ctx) -> Vec<Case> {
         v.push(Case::Aln { seed: 0, size: 0, coord_max: (1 << 29) - 1, corpus: Some(c) });
         v.push(Case::Var { seed: 0, size: 0, coord_max: (1 << 29) - 1, corpus: Some(c) });
     }
-    let n = ctx.budget("sets", 150, 1500);
+    let n = ctx.budget("sets", 400, 10000);
     let mut rng = Rng::new(ctx.seed, 0xC04, 0);
     for i in 0..n {
         for kind in 0..2 {
@@ -834,7 +850,16 @@ fn corpus_aln(name: &str) -> AlnSet {
 }
 
 fn corpus_var(name: &str) -> VarSet {
-    let mk = |k: usize, pos: usize, ref_len: usize, end: Option<usize>| VarRec { chrom: 0, pos, id: format!("v{k}"), ref_len, alt: if end.is_some() { "<DEL>".into() } else { "T".into() }, end, svlen: None, pad: 0 };
+    let mk = |k: usize, pos: usize, ref_len: usize, end: Option<usize>| VarRec {
+        chrom: 0,
+        pos,
+        id: format!("v{k}"),
+        ref_len,
+        alt: if end.is_some() { "<DEL>".into() } else { "T".into() },
+        end,
+        svlen: None,
+        pad: 0,
+    };
     let recs = match name {
         "long-in-parent-bin" => vec![mk(0, 11, 1, Some(20_010)), mk(1, 20, 1, None), mk(2, 300, 3, None), mk(3, 17_000, 1, None)],
         "long-in-grandparent-bin" => vec![mk(0, 11, 1, Some(200_010)), mk(1, 20, 1, None), mk(2, 300, 3, None)],
@@ -850,7 +875,39 @@ fn corpus_regions(name: &str) -> Vec<Reg> {
     match name {
         "long-in-parent-bin" | "long-in-grandparent-bin" => vec![r(20, 119), r(300, 300), r(10, 10), r(11, 11), r(1, 1 << 20)],
         "short-in-later-bin" => vec![r(100, 25_000), r(20_000, 20_000), r(1, 70_000)],
-        _ => vec![r(1, 1), r(16_384, 16_384), r(16_385, 16_385), r(16_383, 16_383), r(131_072, 131_073), r((1 << 29) - 1, (1 << 29) - 1), Reg { rid: 0, s: None, e: None, class: "corpus" }, Reg { rid: 1, s: None, e: None, class: "corpus" }],
+        _ => vec![
+            r(1, 1),
+            r(16_384, 16_384),
+            r(16_385, 16_385),
+            r(16_383, 16_383),
+            r(131_072, 131_073),
+            r((1 << 29) - 1, (1 << 29) - 1),
+            Reg { rid: 0, s: None, e: None, class: "corpus" },
+            Reg { rid: 1, s: None, e: None, class: "corpus" },
+        ],
+    }
+}
+
+/// Removes the scratch files of a case (`c04-<idx>*` under the work directory) when the case ends.
+struct Scratch {
+    dir: std::path::PathBuf,
+    prefix: String,
+}
+
+impl Drop for Scratch {
+    fn drop(&mut self) {
+        if std::env::var_os("VERIF_KEEP_WORK").is_some() {
+            return;
+        }
+        if let Ok(rd) = std::fs::read_dir(&self.dir) {
+            for e in rd.flatten() {
+                let name = e.file_name();
+                let name = name.to_string_lossy();
+                if name.starts_with(&self.prefix) {
+                    let _ = std::fs::remove_file(e.path());
+                }
+            }
+        }
     }
 }
 
@@ -889,12 +946,14 @@ fn blocks_of(data: &[u8]) -> (u64, u64) {
 
 fn run_aln(ctx: &Ctx, idx: u64, seed: u64, size: usize, coord_max: usize, corpus: Option<&str>) -> CaseOut {
     let mut o = CaseOut::new();
+    let _scratch = Scratch { dir: ctx.work.clone(), prefix: format!("c04-{idx}.") };
     let mut rng = Rng::new(seed, 0xA1, 0);
     let (set, shape) = match corpus {
         Some(c) => (corpus_aln(c), format!("corpus:{c}")),
         None => layouts::gen_aln(&mut rng, coord_max, size),
     };
-    let items: Vec<Item> = set.recs.iter().map(|r| Item { name: r.name.clone(), rid: if r.is_unplaced() { None } else { r.rid }, span: r.span().map(|(s, e)| (s, e, e)), unmapped: r.is_unmapped() }).collect();
+    let items: Vec<Item> =
+        set.recs.iter().map(|r| Item { name: r.name.clone(), rid: if r.is_unplaced() { None } else { r.rid }, span: r.span().map(|(s, e)| (s, e, e)), unmapped: r.is_unmapped() }).collect();
     let path = ctx.work.join(format!("c04-{idx}.bam"));
     let w = guard::catch(|| genfiles::write_bam(&path, &set));
     match w {
@@ -1000,6 +1059,7 @@ fn run_aln(ctx: &Ctx, idx: u64, seed: u64, size: usize, coord_max: usize, corpus
 
 fn run_var(ctx: &Ctx, idx: u64, seed: u64, size: usize, coord_max: usize, corpus: Option<&str>) -> CaseOut {
     let mut o = CaseOut::new();
+    let _scratch = Scratch { dir: ctx.work.clone(), prefix: format!("c04-{idx}.") };
     let mut rng = Rng::new(seed, 0xB2, 0);
     let (set, shape) = match corpus {
         Some(c) => (corpus_var(c), format!("corpus:{c}")),
